@@ -146,11 +146,14 @@ impl<R: Seek> Seek for Metered<R> {
 #[derive(Default)]
 pub struct CountingSink {
     pub n: u64,
+    /// when non-zero, at most this many bytes are accepted per call (a destination that keeps writing short)
+    pub cap: usize,
 }
 impl Write for CountingSink {
     fn write(&mut self, b: &[u8]) -> io::Result<usize> {
-        self.n += b.len() as u64;
-        Ok(b.len())
+        let k = if self.cap == 0 { b.len() } else { b.len().min(self.cap) };
+        self.n += k as u64;
+        Ok(k)
     }
     fn flush(&mut self) -> io::Result<()> {
         Ok(())
